@@ -60,8 +60,11 @@ func init() {
 
 var primNames = map[int]string{100: "string", 101: "int"}
 
+// mkVersion: a file version has two components (modification time, content hash); the model's version number v
+// stands for the pair (v/2 + 1, v%3): consecutive numbers often differ in ONE component only - a touched file with the
+// same content, or new content under the same time - and are different versions all the same
 func mkVersion(v int) *gast.FileVersion {
-	return &gast.FileVersion{Path: "/p.go", ModTime: time.Unix(int64(v), 0), Hash: fmt.Sprintf("h%d", v)}
+	return &gast.FileVersion{Path: "/p.go", ModTime: time.Unix(int64(v/2+1), 0), Hash: fmt.Sprintf("h%d", v%3)}
 }
 
 func mkIdent(b int) *ast.Ident {
@@ -92,7 +95,13 @@ func verOf(sk graphs.SymbolKey, n *symboldg.SymbolNode) int {
 		return 0
 	}
 	if n != nil && n.Version != nil {
-		return int(n.Version.ModTime.Unix())
+		// invert mkVersion on the range the generator uses
+		for v := 0; v < 64; v++ {
+			if mv := mkVersion(v); mv.ModTime.Equal(n.Version.ModTime) && mv.Hash == n.Version.Hash {
+				return v
+			}
+		}
+		return -2
 	}
 	return -1
 }
@@ -279,6 +288,21 @@ func dumpGraph(g *symboldg.SymbolGraph, n int) gDump {
 						d.Err += fmt.Sprintf("parents filtered by function (not %d) differ on %d;", skip, b)
 					}
 				}
+				// both filters at once: a neighbour is returned iff its kind is listed AND the predicate accepts it
+				for _, k := range allNodeKinds {
+					k := k
+					for _, skip := range bases {
+						skip := skip
+						beh := &symboldg.TraversalBehavior{Sorting: srt, Filtering: symboldg.TraversalFilter{NodeKinds: []common.SymKind{k},
+							FilterFunc: func(n *symboldg.SymbolNode) bool { return baseOf(n.Id) != skip }}}
+						if !sameMultiset(basesOf(g.Children(nd, beh)), restrict(ch, func(x int) bool { return kindOf[x] == k && x != skip })) {
+							d.Err += fmt.Sprintf("children filtered by node kind %s AND function (not %d) differ on %d;", k, skip, b)
+						}
+						if !sameMultiset(basesOf(g.Parents(nd, beh)), restrict(pa, func(x int) bool { return kindOf[x] == k && x != skip })) {
+							d.Err += fmt.Sprintf("parents filtered by node kind %s AND function (not %d) differ on %d;", k, skip, b)
+						}
+					}
+				}
 				ekinds := map[string]bool{}
 				for _, e := range es {
 					ekinds[e.k] = true
@@ -458,7 +482,7 @@ func genGraph(seed uint64, n int, tier string, emit func(string, []string, any))
 	for i := 0; i < n; i++ {
 		cr := r.Fork()
 		nk := 2 + cr.Intn(4)
-		nver := 1 + cr.Intn(2)
+		nver := 1 + cr.Intn(4) // 2 vs 3 share the modification time, 1 vs 4 the content hash: still different versions
 		if cr.Chance(1, 2) {
 			nver = 1
 		}
